@@ -107,7 +107,9 @@ def pendingOK (ms : C18St) (A : List Nat) (t : Nat) : Bool :=
        | _ => false)
   | none => false
 
-def monC18 : ObsMonitor Obs C18St where
+/-- the monitor, with the enqueue-order clause switchable (`fifo = false` is only used to state the
+partial simulation theorem `C18_obs_partial`; the registered monitor is `monC18 = monC18g true`) -/
+def monC18g (fifo : Bool) : ObsMonitor Obs C18St where
   init := {}
   step := fun ms o =>
     match o with
@@ -133,7 +135,7 @@ def monC18 : ObsMonitor Obs C18St where
         if ji.isNil = false ∧ ji.st = .unstarted then
           let ms' := { ms with jobs := ms.jobs.set j { ji with st := .active } }
           if (0 < L → (ms'.activeIds.length : Int) ≤ L) ∧
-             (L = 1 → fifoOK ms ji.call j = true)
+             (fifo = true → L = 1 → fifoOK ms ji.call j = true)
           then some ms' else none
         else none
       | _, _ => none
@@ -169,5 +171,8 @@ def monC18 : ObsMonitor Obs C18St where
            ((List.range ms.jobs.length).all ms.started = false → 0 < L ∧ (A.length : Int) = L) ∧
            B.all (pendingOK ms A)
         then some ms else none
+
+/-- property C18 as a monitor -/
+def monC18 : ObsMonitor Obs C18St := monC18g true
 
 end UtilModel.Conc
